@@ -44,7 +44,7 @@ def free_network(draw, tier):
             "labels": draw(st.sampled_from(["id", "id", "perm", "offset", "str"])),
             "perm": list(draw(st.permutations(list(range(n))))),
             "insert": draw(st.sampled_from(["nodes_first", "by_edges"])),
-            "jd_type": draw(st.sampled_from(["tuple", "tuple", "list"])),
+            "jd_type": draw(st.sampled_from(["tuple", "tuple", "list", "mixed"])),
             "weights": draw(st.booleans())}
 
 
@@ -59,9 +59,12 @@ ENUM_CHUNK = 1
 
 def strategy(tier):
     r = st.integers(1, 4)
-    a = st.tuples(NC.clean_network(maxN=14 if tier == "quick" else 40, minN=4, max_motifs=12 if tier == "quick" else 40), r, st.booleans()).map(
-        lambda t: {"net": t[0], "r": t[1], "names_as_tuple": t[2]})
-    b = st.tuples(free_network(tier), r, st.booleans()).map(lambda t: {"net": t[0], "r": t[1], "names_as_tuple": t[2]})
+    # name_prefix: the extractor may be asked for the first m topologies only (the joint degree tuples keep their
+    # full length, edges of the other topologies stay in the network)
+    pre = st.sampled_from([0, 0, 0, 1, 2])
+    a = st.tuples(NC.clean_network(maxN=14 if tier == "quick" else 40, minN=4, max_motifs=12 if tier == "quick" else 40), r, st.booleans(), pre).map(
+        lambda t: {"net": t[0], "r": t[1], "names_as_tuple": t[2], "name_prefix": t[3]})
+    b = st.tuples(free_network(tier), r, st.booleans(), pre).map(lambda t: {"net": t[0], "r": t[1], "names_as_tuple": t[2], "name_prefix": t[3]})
     return st.one_of(a, b, b)
 
 
@@ -96,6 +99,10 @@ def build(case):
         lab = {"id": lambda v: v, "perm": lambda v: perm[v], "offset": lambda v: 4 * perm[v] + 3,
                "str": lambda v: f"v{perm[v]}"}[kind]
         conv = list if net.get("jd_type") == "list" else tuple
+        if net.get("jd_type") == "mixed":
+            # tuples on some vertices, lists on others (a degree sequence given as lists and topped up by the
+            # handshake step looks like this): equal joint degrees then compare unequal as objects
+            mixed = {v: (list if (v * 7 + len(net["edges"])) % 3 else tuple) for v in range(net["n"])}
         if net.get("insert") != "by_edges":
             for v in range(net["n"]):
                 G.add_node(lab(v))
@@ -107,7 +114,7 @@ def build(case):
                 G.edges[lab(u), lab(v)]["weight"] = [0, 2.5, 3, 1][(u + 2 * v) % 4]
         for v in range(net["n"]):
             G.add_node(lab(v))
-            G.nodes[lab(v)][NN.JOINT_DEGREE] = conv(net["jd"][v])
+            G.nodes[lab(v)][NN.JOINT_DEGREE] = (mixed[v] if net.get("jd_type") == "mixed" else conv)(net["jd"][v])
         return G, list(net["names"])
     G, _ = NC.build_graph(net)
     return G, NC.names(net)
@@ -146,6 +153,9 @@ def compare_matrix(got, want, what, n_terms=0):
 def check(case):
     from gcmpy import JointExcessJointDegree, JointExcessDegree, ToolsNames as TN
     G, names = build(case)
+    Tj = len(names)  # length of the joint degree tuples
+    if case.get("name_prefix") and case["name_prefix"] < len(names):
+        names = names[:case["name_prefix"]]
     import copy
     snap = (copy.deepcopy(dict(G.nodes(data=True))), copy.deepcopy({frozenset(e[:2]): e[2] for e in G.edges(data=True)}))
     # the name sequence handed to the extractor: equal to the edge attributes but separately created objects, as a
@@ -154,7 +164,7 @@ def check(case):
     seqtype = tuple if (case.get("names_as_tuple") and not case.get("big")) else list
     ext = call("construct", JointExcessJointDegree, {TN.NETWORK: G, TN.EDGE_NAMES: seqtype(fresh_names)})
     want = reference(G, names)
-    T = len(names)
+    T = Tj
     first_keys = None
     classes = set()
     for rep in range(case["r"]):
@@ -213,6 +223,10 @@ def check(case):
         return {"nontrivial": True, "classes": sorted(classes)}
     if case.get("names_as_tuple"):
         classes.add("names_as_tuple")
+    if len(names) < Tj:
+        classes.add("subset_of_topologies_requested")
+    if case["net"].get("jd_type") == "mixed":
+        classes.add("mixed_list_tuple_annotations")
     if case["net"].get("free"):
         classes.add("free_annotations")
         if case["net"].get("labels", "id") != "id" or case["net"].get("insert") == "by_edges":
